@@ -31,11 +31,14 @@ ASSUMPTIONS = [
     "alphabet: ASCII digits, blank and tab as padding, printable ASCII and selected non-ASCII letters in "
     "payloads; other Unicode white space / digits (accepted by the shipped \\s, \\d) are not generated",
     "E payloads with an inner tab and the empty word are the unspecified zone: not asserted either way",
+    "padding made of Unicode blanks other than space and tab (NBSP, U+3000, ...): acceptance is not asserted "
+    "either way; only that the recogniser offered the line alone and the section parser agree about it",
     "a lane index written with leading zeros ('N 07 0') is unspecified (acceptance not asserted either way); "
     "the star-power kind is the literal '2' of the property, so 'S 02 ...' is a line of another shape",
 ]
 
 
+from cpverif.spec import HEADER_LIST as S_HEADERS  # noqa: E402
 import re as _re
 _ZERO_PREFIXED_LANE = _re.compile(r"^[ \t]*[0-9]+ = N 0+[0-7] [0-9]+[ \t]*$")
 
@@ -429,8 +432,55 @@ def long_cases(ctx: Ctx):
     yield {"line": f"  {big} = N 0 {big}", "kind": "N", "want": [int(big), 0, int(big)]}
 
 
+# Unicode blanks that str.splitlines() does not treat as line ends.  Whether padding made of them is "blank
+# padding" in the sense of the property is not asserted (see ASSUMPTIONS); what IS checked is that the two
+# observation points agree: a line the shipped recogniser decodes when it is offered alone is decoded to the
+# same datum when it stands in an instrument section, and a line it refuses yields nothing there.
+UNI_BLANKS = ["\u00a0", "\u3000", "\u2003", "\u2009", "\u200a", "\u202f", "\u205f", "\u1680", "\x1f", "\u2000"]
+
+
+def uniblank_cases(ctx: Ctx):
+    k = 0
+    for b in UNI_BLANKS:
+        for lp, rp in ((b, ""), ("", b), (b + " ", "\t" + b), ("  " + b, ""), (b * 3, b)):
+            for body, kind in (("777 = N 3 48", "N"), ("777 = S 2 48", "S"), ("777 = E solo", "E")):
+                k += 1
+                yield {"line": lp + body + rp, "kind": kind, "header": S_HEADERS[k % 40]}
+
+
+def check_uniblank(ctx: Ctx, case) -> None:
+    line, kind = case["line"], case["kind"]
+    cls = {"N": L.NoteEvent.ParsedData, "S": L.StarPowerEvent.ParsedData, "E": L.TrackEvent.ParsedData}[kind]
+    try:
+        cls.from_chart_line(line)
+        alone = True
+    except L.RegexNotMatchError:
+        alone = False
+    except Exception as e:  # noqa: BLE001
+        ctx.fail("recogniser-error", f"{kind} recogniser on {line!r} raised {type(e).__name__}: {e}", case)
+        return
+    text = T.chart_text(192, [[0, 120000]], {})
+    text += f"[{case['header']}]\n{{\n  0 = N 0 0\n  96 = N 1 0\n{line}\n  960 = N 2 0\n}}\n"
+    try:
+        chart = L.parse(text)
+    except Exception as e:  # noqa: BLE001
+        ctx.fail("section-parses", f"section with {line!r} rejected: {type(e).__name__}: {e}", case)
+        return
+    tr = T.get_track(chart, case["header"])
+    there = {"N": any(e.tick == 777 for e in tr.note_events),
+             "S": any(e.tick == 777 and e.sustain == 48 for e in tr.star_power_events),
+             "E": any(e.tick == 777 and e.value == "solo" for e in tr.track_events)}[kind]
+    if there != alone:
+        ctx.fail("recogniser-and-section-disagree",
+                 f"{line!r}: the {kind} recogniser {'decodes' if alone else 'refuses'} it when offered alone, but in an "
+                 f"instrument section it {'yields' if there else 'yields no'} event", case)
+    ctx.note(line, nontrivial=True, classes=[f"uniblank_{'accepted' if alone else 'refused'}"],
+             sample={"line": line, "accepted": alone})
+
+
 PARTS: list[Part] = [
     enum_part("long", long_cases, check_positive, {"quick": 2, "thorough": 2}),
+    enum_part("uniblank", uniblank_cases, check_uniblank, {"quick": 2, "thorough": 2}),
     custom_part("slots", drive_slots, check_slots, {"quick": 12, "thorough": 16}),
     hyp_part("positives", strat_positives, check_positive, {"quick": 1500, "thorough": 25000},
              {"quick": 2, "thorough": 16}),
